@@ -1,2 +1,4 @@
 //! Reference models written from the documentation (docs/src), not from the code under test.
 pub mod isa;
+pub mod flow;
+pub mod mast;
